@@ -445,8 +445,12 @@ class Ctx:
         json.dump(ev, open(tmp, 'w'), indent=1, default=str)
         os.replace(tmp, os.path.join(EVID, self.pid + '.json'))
         shutil.rmtree(self.work, ignore_errors=True)
+        sys.stderr.flush()
+        sys.stdout.flush()
         for l in lines:
-            print(l, flush=True)
+            # own line even if something else left a partial line on a shared terminal / pipe
+            sys.stdout.write('\n' + l + '\n')
+            sys.stdout.flush()
         self.log('done: %s, evidence written' % ('VIOLATION' if violations else 'ok'))
         return 1 if violations else 0
 
